@@ -16,7 +16,7 @@ CHECKS = {
    note="Trusted: the harness's Universe->DependencyProvider adapter and the brute-force oracle (self-checked against hand-solved universes on every run)."),
  "C02": dict(engine=E1, cat="model_checking", ref="DESIGN.md §3 C02",
    technique="exhaustive universe enumeration; verdict vs brute-force satisfiability; learnt clauses certified on all assignments",
-   text="Same enumeration as C01 plus id layouts with gaps; the verdict must equal brute-force satisfiability; via the read-only clause dump every problem clause is checked against the provider data, the forbid clauses of each package must be exactly an at-most-one, and every learnt clause must hold in every total assignment that satisfies the problem clauses emitted before it (enumeration over <= 2^18 assignments). An unsound learnt clause is caught even when it has not flipped a verdict; the watch lists of every solve must be structurally intact (every watching clause exactly once in the lists of its two watched literals), so a lost watch is caught long before it flips a verdict.",
+   text="Same enumeration as C01 plus id layouts with gaps; the verdict must equal brute-force satisfiability; via the read-only clause dump every problem clause is checked against the provider data, the forbid clauses of each package must be exactly an at-most-one, and every learnt clause must hold in every total assignment that satisfies the problem clauses emitted before it (enumeration over <= 2^18 assignments). An unsound learnt clause is caught even when it has not flipped a verdict; the watch lists of every solve must be structurally intact (every watching clause exactly once in the lists of its two watched literals), so a lost watch is caught long before it flips a verdict; the verdict must also be the same under every explored completion order of an asynchronous provider.",
    note="Clause dump comes from the verif-hooks feature (read-only). Learnt-clause certification skipped (and counted) above 18 variables."),
  "C03": dict(engine=E1, cat="model_checking", ref="DESIGN.md §3 C03",
    technique="exhaustive universe enumeration; conflict graph checked edge-by-edge and by enumeration of all node subsets",
@@ -40,7 +40,7 @@ CHECKS = {
    note=""),
  "C09": dict(engine=E1, cat="model_checking", ref="DESIGN.md §3 C09",
    technique="exhaustive universe enumeration; provider call log walked against causality rules",
-   text="The complete provider call log of every solve (no hints, in both representations: the None variant and an empty list) is walked in order: get_dependencies only for matching candidates of requirements already obtained (or soft solvables), get_candidates only for names already mentioned, nothing twice; on conflict-free cases the fetched sets must be exactly the solution / the mentioned names.",
+   text="The complete provider call log of every solve (no hints, in both representations: the None variant and an empty list) is walked in order: get_dependencies only for matching candidates of requirements already obtained (or soft solvables), get_candidates only for names already mentioned, nothing twice (also when requests overlap: completion orders of an asynchronous provider, incl. one that reads dependencies through the cache from sort_candidates); on conflict-free cases the fetched sets must be exactly the solution / the mentioned names.",
    note="Sync runtime; successive solves are covered by C13."),
  "C10": dict(engine="E2 completion-order explorer", cat="model_checking", ref="DESIGN.md §3 C10",
    technique="stateless DFS over all completion orders of parked provider futures under a controlled single-threaded executor (deviation-bounded above a size cap)",
@@ -72,7 +72,7 @@ CHECKS = {
    note="Problems with union root requirements are not expressible through from_provider's seeds."),
  "C18": dict(engine="E4 operation-sequence explorer", cat="model_checking", ref="DESIGN.md §3 C18",
    technique="BFS over Pool interning histories from pre-filled start states with canonical-state dedup vs reference maps",
-   text="Breadth-first search over intern_* histories (depth 4 quick / 6 thorough) from pools pre-filled with 0/126/127/128/255/256 items per arena (some with the alphabet's package names interned already); after every operation every id ever returned is re-resolved and must yield the same content at the same address; ids dense and stable. Because the canonical form is derived from the reference model, every sequence up to depth 4 (quick) / 5 (thorough) from prefill 0 and 127 is additionally enumerated without any state merging. Thorough adds a supplementary miri replay of a few histories (not deciding).",
+   text="Breadth-first search over intern_* histories (depth 4 quick / 6 thorough) from pools pre-filled with 0/126/127/128/255/256 items per arena (some with the alphabet's package names interned already), plus every sequence of length 2 from pools holding 128*128-1 items per arena; after every operation every id ever returned is re-resolved and must yield the same content at the same address; ids dense and stable. Because the canonical form is derived from the reference model, every sequence up to depth 4 (quick) / 5 (thorough) from prefill 0 and 127 is additionally enumerated without any state merging. Thorough adds a supplementary miri replay of a few histories (not deciding).",
    note="Address stability observed through safe code (re-resolution)."),
  "C19": dict(engine="E4 operation-sequence explorer", cat="model_checking", ref="DESIGN.md §3 C19",
    technique="BFS over Mapping insert/unset histories with canonical-state dedup vs BTreeMap, incl. serde round trip",
@@ -86,11 +86,11 @@ CHECKS = {
 
 CHECKS["C06"] = dict(engine=E1, cat="exploration", ref="DESIGN.md §3 C06, §10",
    technique="enumeration of instances x a fixed list of controlled hash-seed vectors x fresh solver instances, plus cross-process batch digests",
-   text="Every instance of F1 (all roots) / F3 (<= 1/2 decorations) / the dead-end family (<= 2/3 exclusion, unknown, empty-requirement, lock decorations) / the constrains families (F3 x <= 2/3 constrains decorations, a slice of F9-wide: one solvable constraining several version sets inside one conflict; all packages displaying the same name, with a provider that keeps the order of merged solvables in messages) / a slice of F4 is solved under K fixed ahash seed vectors (K = 4 quick, 16 thorough; seed control through ahash's set_random_source and --cfg fuzzing) x 2 fresh solvers, with hints as-is and All; the solution vector (order included) or the conflict message must be identical; the whole batch is digested again in separate processes with uncontrolled seeds. Exploration, not proof: the seed space is 2^256 and only a fixed list is enumerated.",
+   text="Every instance of F1 (all roots) / F3 (<= 1/2 decorations) / the dead-end family (<= 2/3 exclusion, unknown, empty-requirement, lock decorations) / the constrains families (F3 x <= 2/3 constrains decorations, a slice of F9-wide: one solvable constraining several version sets inside one conflict; all packages displaying the same name, with a provider that keeps the order of merged solvables in messages; the soft-requirement families F5 / F11 / F13 with ordered, repeated and conflicting soft entries) / a slice of F4 is solved under K fixed ahash seed vectors (K = 4 quick, 16 thorough; seed control through ahash's set_random_source and --cfg fuzzing) x 2 fresh solvers, with hints as-is and All; the solution vector (order included) or the conflict message must be identical; the whole batch is digested again in separate processes with uncontrolled seeds. Exploration, not proof: the seed space is 2^256 and only a fixed list is enumerated.",
    note="std's SipHash keys in conflict.rs vary per instance but are not controlled; a seed-control probe must realise >= 2 iteration orders or the run exits 2.")
 CHECKS["C17"] = dict(engine="E5 C++/Rust differential driver", cat="model_checking", ref="DESIGN.md §3 C17, §10",
    technique="universe enumeration pushed through the C++ bridge and the Rust API in one ASan/UBSan process with a layout-checking allocator; exhaustive container-operation sequences vs std::vector",
-   text="Every universe of F3 (<= 1/2 decorations), a slice of F1 and of F5 that the C++ interface can express is solved through resolvo::solve with a table-driven C++ DependencyProvider (6 ways of building the returned vectors incl. a reused scratch vector with capacity > size, with and without a pre-filled result; consecutive solves use provider objects at alternating addresses and the previous provider is destroyed and poisoned) and through the Rust API: identical solution vector / error text, no Rust-side block survives a solve, every block is freed with the layout it was allocated with, ASan/UBSan/LSan silent; every sequence (depth 4/5) of container operations on Vector<SolvableId>/Vector<String> with 2 handles vs std::vector (incl. push_back of an element of the same vector through both overloads), String operations vs std::string (incl. self-assignment and assignment of views into the string's own data), struct layouts compared; a reduced pass runs under valgrind.",
+   text="Every universe of F3 (<= 1/2 decorations), a slice of F1 and of F5 that the C++ interface can express is solved through resolvo::solve with a table-driven C++ DependencyProvider (6 ways of building the returned vectors incl. a reused scratch vector with capacity > size, with and without a pre-filled result; consecutive solves use provider objects at alternating addresses and the previous provider is destroyed and poisoned) and through the Rust API: identical solution vector / error text, no Rust-side block survives a solve, every block is freed with the layout it was allocated with, ASan/UBSan/LSan silent; every sequence (depth 4/5) of container operations on Vector<SolvableId>/Vector<String>/Vector<std::string> with 2 handles vs std::vector (incl. push_back of an element of the same vector through both overloads), String operations vs std::string (incl. self-assignment and assignment of views into the string's own data), struct layouts compared; a reduced pass runs under valgrind.",
    note="Unknown dependencies and missing packages cannot be expressed through the C++ interface; the Rust side of Vector is only reachable through the bridge.")
 
 NOT_APPLICABLE = {
